@@ -1,0 +1,81 @@
+//go:build verif
+
+package gojq
+
+import (
+	"encoding/json"
+	"fmt"
+	"strings"
+)
+
+// Verification hooks for property C03 of /verif (native builtins and operators).
+// Add-only: nothing here is compiled without the build tag "verif".
+
+// VerifNative describes one entry of internalFuncs.
+type VerifNative struct {
+	Argcount int  // bit mask: bit k set <=> arity k accepted
+	Iter     bool // the callback returns an Iter
+	HasImpl  bool // callback != nil (the others are compiled specially)
+}
+
+// VerifNatives lists the table of native functions.
+func VerifNatives() map[string]VerifNative {
+	m := make(map[string]VerifNative, len(internalFuncs))
+	for name, fn := range internalFuncs {
+		m[name] = VerifNative{fn.argcount, fn.iter, fn.callback != nil}
+	}
+	return m
+}
+
+// VerifCallNative calls the native callback directly, exactly as the opcall instruction does
+// (input value, argument slice).  A panic is recovered and reported.
+func VerifCallNative(name string, in any, args []any) (res any, panicked any) {
+	fn, ok := internalFuncs[name]
+	if !ok || fn.callback == nil {
+		return nil, "no such native: " + name
+	}
+	defer func() {
+		if r := recover(); r != nil {
+			res, panicked = nil, fmt.Sprint(r)
+		}
+	}()
+	return fn.callback(in, args), nil
+}
+
+// VerifErrClass classifies an error by its Go type (never by its message).  Wrapping errors
+// report the class of the wrapped error too; errors of other packages are "ext".
+func VerifErrClass(err error) string {
+	inner := func(e error) string { return "(" + VerifErrClass(e) + ")" }
+	switch e := err.(type) {
+	case *func0WrapError:
+		return "func0WrapError" + inner(e.err)
+	case *func1WrapError:
+		return "func1WrapError" + inner(e.err)
+	case *func2WrapError:
+		return "func2WrapError" + inner(e.err)
+	case *tryEndError:
+		return VerifErrClass(e.err)
+	}
+	s := fmt.Sprintf("%T", err)
+	if t, ok := strings.CutPrefix(s, "*gojq."); ok {
+		return t
+	}
+	return "ext"
+}
+
+// VerifErrPayload returns the value carried by error/0,1 and halt_error (and its exit code).
+func VerifErrPayload(err error) (v any, code int, ok bool) {
+	switch e := err.(type) {
+	case *exitCodeError:
+		return e.value, e.code, true
+	case *HaltError:
+		return e.value, e.code, true
+	}
+	return nil, 0, false
+}
+
+// VerifBuiltinDefs returns the precompiled definitions of the jq-defined builtins (builtin.go).
+func VerifBuiltinDefs() map[string][]*FuncDef { return builtinFuncDefs }
+
+// VerifParseNumber exposes parseNumber (normalisation of a json.Number).
+func VerifParseNumber(n json.Number) any { return parseNumber(n) }
